@@ -690,6 +690,12 @@ def run_trace(ctx, inp, diff=True):
                     bad = [STATE_FIELDS[j] for j in range(9) if ms[j] != rs[j]]
                     ctx.disagree(f"scheduler state at {me} differs in {bad}", ms, rs)
                     break
+    if ok and m_out[0] == "raised":
+        # start_state_from_dask raised (missing dependency): the callbacks that were started still get `finish`, with
+        # failed=True, and nothing else
+        if [e for e, _ in m_events] != [e for e, _ in r_events]:
+            ctx.disagree("callback events of a call whose start state could not be built", [e for e, _ in m_events],
+                         [e for e, _ in r_events])
     if ok and m_out[0] == "done":
         r_flat = list(flatten_req(_tuple_to_list(real["result"]))) if isinstance(real_req, list) else [real["result"]]
         ctx.eq("result values", [x if isinstance(x, int) else str(x) for x in model["result"]], r_flat)
